@@ -236,7 +236,7 @@ static ALLOWED_EMIT: Lazy<HashSet<&'static str>> =
     Lazy::new(|| ["link", "metadata", "dep-info"].iter().copied().collect());
 
 /// Version number for cache key.
-const CACHE_VERSION: &[u8] = b"6";
+const CACHE_VERSION: &[u8] = b"7";
 
 /// Get absolute paths for all source files and env-deps listed in rustc's dep-info output.
 async fn get_source_files_and_env_deps<T>(
@@ -247,7 +247,7 @@ async fn get_source_files_and_env_deps<T>(
     cwd: &Path,
     env_vars: &[(OsString, OsString)],
     pool: &tokio::runtime::Handle,
-) -> Result<(Vec<PathBuf>, Vec<(OsString, OsString)>)>
+) -> Result<(Vec<PathBuf>, Vec<(OsString, Option<OsString>)>)>
 where
     T: CommandCreatorSync,
 {
@@ -295,7 +295,10 @@ where
 
 /// Parse dependency info from `file` and return a Vec of files mentioned.
 /// Treat paths as relative to `cwd`.
-fn parse_dep_file<T, U>(file: T, cwd: U) -> Result<(Vec<PathBuf>, Vec<(OsString, OsString)>)>
+fn parse_dep_file<T, U>(
+    file: T,
+    cwd: U,
+) -> Result<(Vec<PathBuf>, Vec<(OsString, Option<OsString>)>)>
 where
     T: AsRef<Path>,
     U: AsRef<Path>,
@@ -357,14 +360,19 @@ where
     deps
 }
 
-fn parse_env_dep_info(dep_info: &str) -> Vec<(OsString, OsString)> {
+/// Parse the `# env-dep:` lines of rustc's dep-info output.
+///
+/// `# env-dep:VAR=value` means `VAR` was set to `value` (possibly empty) when rustc ran,
+/// `# env-dep:VAR` means it was not set at all. `option_env!` tells these two apart, so
+/// the value is `None` for an unset variable rather than an empty string.
+fn parse_env_dep_info(dep_info: &str) -> Vec<(OsString, Option<OsString>)> {
     let mut env_deps = Vec::new();
     for line in dep_info.lines() {
         if let Some(env_dep) = line.strip_prefix("# env-dep:") {
             let mut split = env_dep.splitn(2, '=');
             match (split.next(), split.next()) {
-                (Some(var), Some(val)) => env_deps.push((var.into(), val.into())),
-                _ => env_deps.push((env_dep.into(), "".into())),
+                (Some(var), Some(val)) => env_deps.push((var.into(), Some(val.into()))),
+                _ => env_deps.push((env_dep.into(), None)),
             }
         }
     }
@@ -1487,8 +1495,14 @@ where
         env_deps.sort();
         for (var, val) in env_deps.iter() {
             var.hash(&mut HashToDigest { digest: &mut m });
-            m.update(b"=");
-            val.hash(&mut HashToDigest { digest: &mut m });
+            match val {
+                Some(val) => {
+                    m.update(b"=");
+                    val.hash(&mut HashToDigest { digest: &mut m });
+                }
+                // Not set at all, which `option_env!` distinguishes from set but empty.
+                None => m.update(b"\0"),
+            }
         }
         let mut env_vars: Vec<_> = env_vars
             .iter()
@@ -3222,6 +3236,18 @@ baz.rs:
 abc def.rs:
 "#;
         assert_eq!(pathvec!["abc def.rs", "baz.rs"], parse_dep_info(deps, ""));
+    }
+
+    #[test]
+    fn test_parse_env_dep_info() {
+        let deps =
+            "foo: baz.rs\n\nbaz.rs:\n\n# env-dep:UNSET\n# env-dep:EMPTY=\n# env-dep:SET=a=b\n";
+        let expected: Vec<(OsString, Option<OsString>)> = vec![
+            ("UNSET".into(), None),
+            ("EMPTY".into(), Some("".into())),
+            ("SET".into(), Some("a=b".into())),
+        ];
+        assert_eq!(expected, parse_env_dep_info(deps));
     }
 
     #[cfg(not(windows))]
